@@ -59,3 +59,6 @@ void ob_c04_window_negctl(const std::array<size_t,2>& shape_, size_t w, const st
 WAK(1,0) WAK(1,-1) WAK(2,0) WAK(2,1) WAK(2,-1) WAK(2,-2) WAK(3,0) WAK(3,1) WAK(3,2) WAK(3,-1) WAK(3,-3)
 #define WN(K,R) template void ob_c04_window_all<K,R>(const mk_t<K,size_t,R>&, const mk_t<K,size_t,R>&, const mk_t<K,size_t,2*R>&);
 WN(k_std,1) WN(k_std,2) WN(k_std,3) WN(k_utl,1) WN(k_utl,2) WN(k_utl,3)
+#ifdef VERIF_THOROUGH
+WAK(4,0) WAK(4,1) WAK(4,2) WAK(4,3) WAK(4,-1) WAK(4,-2) WAK(4,-4) WAK(3,-2) WN(k_std,4) WN(k_utl,4)
+#endif
